@@ -7,6 +7,7 @@ first, end-of-block code last, nothing in between). The codes are computed with 
 theorems are about (`firstAt`, `symRank`), tabulated once per block.
 -/
 import MinizProof.Lemmas.EncTokens
+import MinizProof.Model.DeflRle
 namespace Driver
 open Spec Model.Core
 
@@ -84,6 +85,25 @@ def checkBlockTokens (data : Array UInt8) (b : BlockInfo) : Option String := Id.
     k := k + 1
   if eob.2 == 0 || !checkMSB data pos eob.1 eob.2 then return some s!"end-of-block code at bit {pos}"
   if pos + eob.2 != b.bitEnd then return some s!"token area ends at bit {pos + eob.2}, block at {b.bitEnd}"
+  return none
+
+/-- header of a dynamic block against the model of `start_dynamic_block` (`Model.Rle.header`): from
+    the block's first bit to the start of its token area, bit for bit -/
+def checkDynHeader (data : Array UInt8) (b : BlockInfo) : Option String := Id.run do
+  let lt := codeTable b.litLens
+  let dt := codeTable b.distLens
+  let total := b.tokens.foldl (fun n t => n + tokBitLen lt dt t) 0 + (lt.getD 256 (0, 0)).2
+  let hdr := Model.Rle.header b.litLens b.distLens b.clenLens
+  let bits := bitsLE ((if b.final then 1 else 0) + 4) 3 ++ (bitsLE hdr.hlit 5 ++ (bitsLE hdr.hdist 5 ++
+    (bitsLE (hdr.cvals.length - 4) 4 ++ (clenFieldBits hdr.cvals ++ encCSyms hdr.clens hdr.csyms))))
+  if b.bitStart + bits.length + total != b.bitEnd then
+    return some s!"model header has {bits.length} bits, the block has {b.bitEnd - b.bitStart - total} before its tokens ({hdr.csyms.length} code-length symbols in the model)"
+  let mut i := 0
+  for x in bits do
+    if bitAt data (b.bitStart + i) != some x then return some s!"header bit {i} differs from the model of start_dynamic_block"
+    i := i + 1
+  -- the model's sequence expands to the block's code lengths (what the theorem promises)
+  if (applyAll #[] hdr.csyms) != b.litLens ++ b.distLens then return some "model code-length symbols do not expand to the block's code lengths"
   return none
 
 end Driver
